@@ -97,3 +97,10 @@ Definition scase_explain (cfg : sdev) (c : scase) :=
   (map show_run (run_history cfg (case_sys c) (sc_init c) (sc_hist c)),
    map (fun T => (t_id T, map show_run (spec_trig_runs T (sc_init c) (sc_hist c)))) (sc_trigs c),
    map (fun o => (o_fn o, o_tid o, o_evid o)) (sc_obs c)).
+
+(* ---------- get_names: the names the real AstEval.get_names reported for an expression vs [bexp_names] ---------- *)
+Definition ncase : Type := (bexp * list name * bool).      (* expression, reported dotted names, "other names are builtins" *)
+Definition names_subset (a b : list name) : bool := forallb (fun n => mem_name n b) a.
+Definition ncase_ok (c : ncase) : bool :=
+  let '(b, obs, ok) := c in ok && names_subset (bexp_names b) obs && names_subset obs (bexp_names b).
+Definition ncase_explain (c : ncase) := let '(b, obs, ok) := c in (bexp_names b, obs, ok).
